@@ -12,6 +12,7 @@ LeafS == { [k |-> "num", id |-> 1], [k |-> "bool", b |-> TRUE], Str(2), [k |-> "
 Leaf == LeafS \cup { [k |-> "num", id |-> 0], [k |-> "num", id |-> 2], [k |-> "bool", b |-> FALSE],
                      [k |-> "undef"], [k |-> "unk", m |-> 11], [k |-> "unk", m |-> 13] }
              \cup { Str(n) : n \in StrLens }
+             \cup { [k |-> "lstr", decl |-> d, s |-> S(8, 1)] : d \in {-1, -2, -3, -4, -5, 2147483647} }
 Keys == { EmptyS, S(2, 7), S(3, 8) }
 KeysS == { S(2, 9) }
 
@@ -52,6 +53,7 @@ WellFormed(x) == CASE x.k = "obj" -> x.end /\ \A i \in 1..Len(x.ps) : WellFormed
                    [] x.k = "ecma" -> x.end /\ x.cnt = Len(x.ps) /\ \A i \in 1..Len(x.ps) : WellFormed(x.ps[i].v)
                    [] x.k = "strict" -> x.cnt = Len(x.vs) /\ \A i \in 1..Len(x.vs) : WellFormed(x.vs[i])
                    [] x.k = "unk" -> x.m = 13
+                   [] x.k = "lstr" -> FALSE
                    [] OTHER -> TRUE
 RoundTrip == (act.name = "Dec" /\ cut = Bytes(Enc(v)) /\ WellFormed(v) /\ v.k \notin {"null", "undef"})
                => (act.exp.ok /\ act.exp.used = cut)
